@@ -185,7 +185,9 @@ fn operand_store(block: &mut il::Block, opr: &bad64::Operand, value: il::Express
             arrspec: Some(arrspec),
         } => {
             let reg = get_register(*reg)?;
-            assert_eq!(reg.bits(), 128);
+            if reg.bits() != 128 {
+                return Err(unsupported());
+            }
 
             let (shift, width) = arr_spec_offset_width(arrspec);
             let is_indexed = is_arr_spec_indexed(arrspec);
@@ -193,8 +195,10 @@ fn operand_store(block: &mut il::Block, opr: &bad64::Operand, value: il::Express
             if is_indexed {
                 // Replace only the selected element. First mask the unselected
                 // bits of the old value...
+                if shift + width > reg.bits() {
+                    return Err(unsupported());
+                }
                 let masked_lower = if shift > 0 {
-                    assert!(shift < reg.bits());
                     Some(
                         il::Expression::zext(
                             reg.bits(),
@@ -251,9 +255,7 @@ fn operand_store(block: &mut il::Block, opr: &bad64::Operand, value: il::Express
         bad64::Operand::ShiftReg { .. }
         | bad64::Operand::Imm32 { .. }
         | bad64::Operand::Imm64 { .. }
-        | bad64::Operand::FImm32(_) => {
-            panic!("Can't store to operand `{}`", opr)
-        }
+        | bad64::Operand::FImm32(_) => return Err(unsupported()),
         bad64::Operand::QualReg { .. }
         | bad64::Operand::MultiReg { .. }
         | bad64::Operand::SysReg(_)
@@ -401,9 +403,7 @@ fn operand_storing_width(opr: &bad64::Operand) -> Result<usize> {
         bad64::Operand::ShiftReg { .. }
         | bad64::Operand::Imm32 { .. }
         | bad64::Operand::Imm64 { .. }
-        | bad64::Operand::FImm32(_) => {
-            panic!("Can't store to operand `{}`", opr)
-        }
+        | bad64::Operand::FImm32(_) => Err(unsupported()),
         bad64::Operand::QualReg { .. }
         | bad64::Operand::MultiReg { .. }
         | bad64::Operand::SysReg(_)
